@@ -255,7 +255,8 @@ class MovingWindow(BackgroundService):
             key: The index or timestamp of the sample to return.
 
         Returns:
-            The sample at the given index or timestamp.
+            The sample at the given index or timestamp, or NaN if there is no valid
+                sample for it (like the default `fill_value` of `window`).
 
         Raises:
             IndexError: If the buffer is empty or the index is out of bounds.
@@ -274,6 +275,9 @@ class MovingWindow(BackgroundService):
                     f"Timestamp {key} is out of range [{self._buffer.oldest_timestamp}, "
                     f"{self._buffer.newest_timestamp}]"
                 )
+            if self._buffer.is_missing(self._buffer.normalize_timestamp(key)):
+                # No valid sample for this slot, don't return outdated data.
+                return np.nan
             return self._buffer[self._buffer.to_internal_index(key)]
 
         if isinstance(key, int):
@@ -285,6 +289,9 @@ class MovingWindow(BackgroundService):
                 )
             timestamp = self._buffer.get_timestamp(key)
             assert timestamp is not None
+            if self._buffer.is_missing(timestamp):
+                # No valid sample for this slot, don't return outdated data.
+                return np.nan
             return self._buffer[self._buffer.to_internal_index(timestamp)]
 
         raise TypeError("Key has to be either a timestamp or an integer.")
